@@ -36,6 +36,53 @@ type c06Conn struct {
 func (c *c06Conn) Read(b []byte) (int, error) { return c.r.Read(b) }
 func (c *c06Conn) Close() error               { return nil }
 
+// the conn the fsm believes it is established on (stateChange reads its addresses)
+type c06AddrConn struct {
+	net.Conn
+	remote netip.Addr
+}
+
+func (c *c06AddrConn) Close() error { return nil }
+func (c *c06AddrConn) RemoteAddr() net.Addr {
+	return &net.TCPAddr{IP: net.IP(c.remote.AsSlice()), Port: 179}
+}
+func (c *c06AddrConn) LocalAddr() net.Addr {
+	return &net.TCPAddr{IP: net.IPv4(10, 0, 0, 254).To4(), Port: 40000}
+}
+
+// establish brings the neighbour's fsm to ESTABLISHED the way fsmHandler.loop does: the neighbour's
+// configuration is set, the OPEN "received" from the peer is stored, and the REAL
+// fsm.stateChange(ESTABLISHED) derives every per-session input of the error handling from them
+// (isEBGP, isConfed, isTreatAsWithdraw, twoByteAsTrans, familyMap).  The harness sets none of them.
+func (c *c06Session) establish(t *testing.T, as uint32, revised, fourOctet, v6 bool) {
+	f := c.peer.fsm
+	f.lock.Lock()
+	conf := f.pConf.ReadCopy()
+	conf.ErrorHandling.Config.TreatAsWithdraw = revised
+	f.pConf.Update(&conf)
+	f.lock.Unlock()
+	caps := []bgp.ParameterCapabilityInterface{bgp.NewCapRouteRefresh(), bgp.NewCapMultiProtocol(bgp.RF_IPv4_UC)}
+	if v6 {
+		caps = append(caps, bgp.NewCapMultiProtocol(bgp.RF_IPv6_UC))
+	}
+	if fourOctet {
+		caps = append(caps, bgp.NewCapFourOctetASNumber(as))
+	}
+	open, err := bgp.NewBGPOpenMessage(uint16(as), 90, c.rid, []bgp.OptionParameterInterface{bgp.NewOptionParameterCapability(caps)})
+	if err != nil {
+		t.Fatal(err)
+	}
+	f.recvOpen = open
+	f.conn = &c06AddrConn{remote: c.addr}
+	f.stateChange(bgp.BGP_FSM_ESTABLISHED, newfsmStateReason(fsmOpenMsgNegotiated, nil, nil))
+	f.state.Store(bgp.BGP_FSM_ESTABLISHED)
+	// ... and what handleFSMMessage stores when the session comes up
+	ro := f.pConf.ReadOnly()
+	c.peer.peerInfo.Store(table.NewPeerInfo(f.gConf, ro, ro.State.PeerAs, ro.Config.LocalAs, ro.State.RemoteRouterId,
+		f.gConf.Config.RouterId, ro.Transport.State.RemoteAddress, ro.Transport.State.LocalAddress))
+	c.sessions++
+}
+
 func c06Frame(body []byte) []byte {
 	l := 19 + len(body)
 	h := bytes.Repeat([]byte{0xff}, 16)
@@ -49,6 +96,9 @@ type c06Session struct {
 	h    *fsmHandler
 	got  []*fsmMsg
 	attr []string // attribute list of each delivered UPDATE at callback time
+	addr netip.Addr
+	rid  netip.Addr
+	sessions int
 }
 
 func c06AttrList(l []bgp.PathAttributeInterface) string {
@@ -248,9 +298,11 @@ func TestVerifC06Server(t *testing.T) {
 	}
 	defer s.StopBgp(context.Background(), &api.StopBgpRequest{})
 
-	peerAS := []uint32{65001, 65000, 65002}
-	sess := make([]*c06Session, 3)
-	for i := 0; i < 3; i++ {
+	// neighbours 0..2: eBGP, iBGP, confederation member; neighbour 3: peer AS not configured, so the
+	// peer type of each of its sessions comes from the AS in that session's OPEN
+	peerAS := []uint32{65001, 65000, 65002, 65003}
+	sess := make([]*c06Session, 4)
+	for i := 0; i < 4; i++ {
 		addr := netip.AddrFrom4([4]byte{10, 0, 0, byte(i + 1)})
 		err = s.AddPeer(context.Background(), &api.AddPeerRequest{Peer: &api.Peer{
 			Conf: &api.PeerConf{NeighborAddress: addr.String(), PeerAsn: peerAS[i], AdminDown: true},
@@ -276,22 +328,19 @@ func TestVerifC06Server(t *testing.T) {
 				c.attr = append(c.attr, "?")
 			}
 		}
-		// what fsm.stateChange(ESTABLISHED) computes for the session
-		f := c.peer.fsm
-		f.lock.Lock()
-		conf := f.pConf.ReadCopy()
-		f.isEBGP = conf.IsEBGPPeer(f.gConf)
-		f.isConfed = f.gConf.IsConfederationMember(conf.Config.PeerAs)
-		conf.Timers.State.Uptime = 0
-		f.pConf.Update(&conf)
-		f.lock.Unlock()
-		// ... and what handleFSMMessage stores when the session comes up
-		ro := f.pConf.ReadOnly()
-		c.peer.peerInfo.Store(table.NewPeerInfo(f.gConf, ro, peerAS[i], 65000,
-			netip.AddrFrom4([4]byte{9, 9, 9, byte(i + 1)}), f.gConf.Config.RouterId, addr, netip.AddrFrom4([4]byte{10, 0, 0, 254})))
-		wantE, wantC := i != 1, i == 2
-		if f.isEBGP != wantE || f.isConfed != wantC {
-			t.Fatalf("peer %d: isEBGP=%v isConfed=%v", i, f.isEBGP, f.isConfed)
+		c.addr = addr
+		c.rid = netip.AddrFrom4([4]byte{9, 9, 9, byte(i + 1)})
+		if i == 3 {
+			f := c.peer.fsm
+			f.lock.Lock()
+			conf := f.pConf.ReadCopy()
+			conf.Config.PeerAs = 0
+			conf.State.PeerAs = 0
+			// added as an external non-member (local AS = confederation identifier); as the peer AS is
+			// now open, the plain member AS is the local AS, as for neighbours 1 and 2
+			conf.Config.LocalAs = 65000
+			f.pConf.Update(&conf)
+			f.lock.Unlock()
 		}
 		sess[i] = c
 	}
@@ -299,26 +348,25 @@ func TestVerifC06Server(t *testing.T) {
 	// the neighbours' own FSM goroutines read fsm.state once, when they start (admin-down: they then
 	// sit in idle); only afterwards may the state be forced to ESTABLISHED for handleFSMMessage
 	time.Sleep(500 * time.Millisecond)
-	for _, c := range sess {
-		c.peer.fsm.state.Store(bgp.BGP_FSM_ESTABLISHED)
-	}
 
 	rankName := map[int]string{0: "install", 1: "discard", 2: "withdraw", 4: "reset"}
 
+	floating := false // next case on the neighbour whose peer AS is not configured
 	runCase := func(m *c06Msg, revised bool, v6 bool, label string) {
 		c := sess[m.peer]
-		f := c.peer.fsm
-		f.isTreatAsWithdraw = revised
-		f.twoByteAsTrans = m.use2
-		rf := map[bgp.Family]bgp.BGPAddPathMode{bgp.RF_IPv4_UC: bgp.BGP_ADD_PATH_NONE}
-		if v6 {
-			rf[bgp.RF_IPv6_UC] = bgp.BGP_ADD_PATH_NONE
+		as := peerAS[m.peer]
+		if floating {
+			// the peer type (eBGP / iBGP / confederation) of THIS session comes from its OPEN alone;
+			// the previous session on the same fsm usually had another one
+			c = sess[3]
+			o.stat("session_on_unconfigured_as_neighbour", 1)
 		}
-		f.familyMap.Store(rf)
+		f := c.peer.fsm
 		c.drop()
 		body := m.body()
 		hx := m.hex()
-		detail := map[string]any{"body": hx, "faults": m.faultNames(), "peer": m.peer, "revised": revised, "use2": m.use2, "v6": v6}
+		detail := map[string]any{"body": hx, "faults": m.faultNames(), "peer": m.peer, "revised": revised, "use2": m.use2, "v6": v6,
+			"peer_as_configured": !floating, "open": fmt.Sprintf("AS %d, 4-octet-AS capability %v, IPv6 %v", as, !m.use2, v6)}
 
 		// every prefix M names anywhere (NLRI, WITHDRAWN ROUTES, intact MP_REACH / MP_UNREACH) plus two
 		// bystanders are first announced cleanly by the same peer, so that withdrawals are visible
@@ -335,21 +383,26 @@ func TestVerifC06Server(t *testing.T) {
 			}
 		}
 		if pre {
-			both := map[bgp.Family]bgp.BGPAddPathMode{bgp.RF_IPv4_UC: bgp.BGP_ADD_PATH_NONE, bgp.RF_IPv6_UC: bgp.BGP_ADD_PATH_NONE}
-			f.familyMap.Store(both)
-			f.isTreatAsWithdraw = true
+			// a first session of the neighbour: revised handling on, IPv6 negotiated, same AS width
+			c.establish(t, as, true, !m.use2, true)
 			n4 := append(append([][]byte{c06Bystander4}, m.nlri...), m.wd...)
 			n6 := append(append([][]byte{c06Bystander6}, reach6...), unreach6...)
 			if n := c.feed(c06Announce(m.peer, m.use2, n4, n6)); n != nil {
-				t.Fatalf("clean announcement rejected: %d/%d", n.ErrorCode, n.ErrorSubcode)
+				detail["notification"] = fmt.Sprintf("%d/%d", n.ErrorCode, n.ErrorSubcode)
+				o.fail("wellformed-penalised:clean-announcement-reset", detail)
+				return
 			}
 			adj, _ := c.routes()
 			if len(adj) < 2 {
-				t.Fatalf("clean announcement not installed")
+				o.fail("wellformed-penalised:clean-announcement-not-installed", detail)
+				return
 			}
-			f.familyMap.Store(rf)
-			f.isTreatAsWithdraw = revised
 		}
+		// the session under test: configuration and OPEN of the case; whatever the previous session
+		// (other treat-as-withdraw setting, other families, other peer type) left in the fsm must not matter
+		c.establish(t, as, revised, !m.use2, v6)
+		o.stat(fmt.Sprintf("open_fouroctet_%d_revised_%d", c06B(!m.use2), c06B(revised)), 1)
+		_ = f
 		var notif *bgp.BGPNotification
 		panicked := func() (p bool) {
 			defer func() {
@@ -444,6 +497,30 @@ func TestVerifC06Server(t *testing.T) {
 			}
 			if !revised && judged && rank != 4 {
 				o.fail("revised-handling-off-but-no-reset", detail)
+			}
+			// ... and not stronger either: with revised handling configured for the neighbour, faults that
+			// RFC 7606 AND gobgp's own table put at attribute-discard / treat-as-withdraw must not cost the session
+			if revised && rank == 4 && m.count(18) == 0 && (v6 || (m.count(14) == 0 && m.count(15) == 0)) {
+				soft := true
+				for _, ft := range m.faults {
+					nm := ft.name
+					if k := strings.IndexByte(nm, ':'); k >= 0 {
+						nm = nm[:k]
+					}
+					switch nm {
+					case "origin-value", "nexthop-value", "missing", "aspath-segment":
+					case "aspath-confed-first", "aspath-confed-middle", "aspath-confed-last":
+					case "len", "flags", "dup", "overrun":
+						if ft.typ == 14 || ft.typ == 15 || ft.typ == 7 {
+							soft = false
+						}
+					default:
+						soft = false
+					}
+				}
+				if soft {
+					o.fail("contained-class-fault-resets-session", detail)
+				}
 			}
 		}
 		if pre {
@@ -593,6 +670,32 @@ func TestVerifC06Server(t *testing.T) {
 		}
 	}
 
+	{
+		// seed C06-F class: the per-session inputs must come from THIS session also when the peer does
+		// not advertise the 4-octet-AS capability.  ORIGIN of length 2 (treat-as-withdraw) and a
+		// CONFED_SEQ from a plain eBGP peer, on 2-octet-AS sessions, with revised handling on, off, on.
+		for k, rev := range []bool{true, false, true} {
+			m6 := &c06Msg{peer: 0, use2: true, nlri: [][]byte{{24, 10, 98, byte(1 + k)}}}
+			m6.attrs = []c06Attr{
+				{typ: 1, flags: 0x40, val: []byte{0, 0}, decl: -1, tag: "len"},
+				{typ: 2, flags: 0x40, val: []byte{2, 1, 0xfd, 0xe9}, decl: -1},
+				{typ: 3, flags: 0x40, val: []byte{10, 0, 0, 1}, decl: -1},
+			}
+			m6.faults = []c06Fault{{"len:1", c06Withdraw, 1}}
+			runCase(m6, rev, true, "corpus")
+			m7 := &c06Msg{peer: 0, use2: true, nlri: [][]byte{{24, 10, 97, byte(1 + k)}}}
+			m7.attrs = []c06Attr{
+				{typ: 1, flags: 0x40, val: []byte{0}, decl: -1},
+				{typ: 2, flags: 0x40, val: []byte{3, 1, 0xfe, 0x4c, 2, 1, 0xfd, 0xe9}, decl: -1, tag: "segment-kind"},
+				{typ: 3, flags: 0x40, val: []byte{10, 0, 0, 1}, decl: -1},
+			}
+			m7.faults = []c06Fault{{"aspath-confed-first", c06Withdraw, 2}}
+			floating = k == 2
+			runCase(m7, rev, true, "corpus")
+			floating = false
+		}
+	}
+
 	n := 2500
 	if o.thorough {
 		n = 20000
@@ -616,7 +719,9 @@ func TestVerifC06Server(t *testing.T) {
 			}
 			o.stat("fault_"+nm, 1)
 		}
+		floating = r.chance(30)
 		runCase(m, revised, !r.chance(10), "peer_"+[]string{"ebgp", "ibgp", "confed"}[peer])
+		floating = false
 	}
 }
 
